@@ -40,7 +40,7 @@ PROP = {'engine': 'c15',
                  'since its monitors last found it healthy; the replay re-executes the window on a fresh fixture node',
                  'expiration times of transactions sent to handleTxsMsg are relative to the wall clock at execution (the handler compares with time.Now)',
                  'connection closed-vs-kept is recorded, not judged'],
- 'min_cases': {'quick': 2500, 'thorough': 50000},
+ 'min_cases': {'quick': 2500, 'thorough': 60000},
  'min_stats': {'quick': {'alloc_checks': 2500, 'goroutine_checks': 60, 'connections_a': 300, 'connections_b': 300, 'c_messages_sent': 1000, 'd_blocks_inserted': 100, 'd_txs_verified': 100, 'd_confirm_packets_inserted': 50},
                'thorough': {'alloc_checks': 50000, 'goroutine_checks': 1000}},
  'timeout_s': {'quick': 900, 'thorough': 10800}}
